@@ -529,35 +529,73 @@ func checkAssertionRuntime(c *core.Ctx, ids map[string]int64) {
 			if !isCC || len(cc.List) != 1 || !strings.HasSuffix(core.ExprStr(cc.List[0]), "ExpressionTypeTypeAssertion") {
 				return true
 			}
-			single, loop := false, false
-			ast.Inspect(cc, func(m ast.Node) bool {
-				switch x := m.(type) {
-				case *ast.CompositeLit:
-					if len(x.Elts) == 1 && strings.HasSuffix(core.ExprStr(x.Elts[0]), "TargetType.TypeID") {
+			// the arm is interpreted for a union target and for a plain one: what NewTypeAssertion receives must be
+			// [TargetType.TypeID], or a slice as long as the alternatives holding each alternative's TypeID
+			single, loop, uni := false, false, true
+			for _, isUnion := range []bool{false, true} {
+				isUnion := isUnion
+				in := newInterp(p, fn)
+				in.MaxPaths = 2000
+				in.ErrorsNil = true
+				in.Hooks.Loop = func(st *absint.State, l ast.Stmt) *absint.LoopSpec {
+					return &absint.LoopSpec{Cases: []string{"alt"}, MaxIter: 1, MinIter: 1, RefStep: func(ref, cs string) string { return ref }}
+				}
+				in.Hooks.Field = func(st *absint.State, base absint.Val, sel string) (absint.Val, bool) {
+					if sel == "TypeID" && strings.HasSuffix(base.Canon(), "TargetType") {
+						if isUnion {
+							return absint.Int(ids["TypeIDUnion"]), true
+						}
+						return absint.S("TARGET-TYPEID"), true
+					}
+					return nil, false
+				}
+				in.Hooks.Cond = func(st *absint.State, atom string) (bool, bool) {
+					if strings.Contains(atom, "TARGET-TYPEID") && strings.Contains(atom, " == ") {
+						return false, true // a plain type's TypeID is not TypeIDUnion
+					}
+					return false, false
+				}
+				var got absint.Val
+				var gotState *absint.State
+				in.Hooks.Call = func(st *absint.State, call *ast.CallExpr, callee string, recv absint.Val, args []absint.Val) (absint.Val, bool) {
+					if callee == "execution.NewTypeAssertion" && len(args) >= 1 {
+						got, gotState = args[0], st
+						st.Emit("ASSERTION", call.Pos(), args[0])
+						return absint.S("ASSERTION"), true
+					}
+					return nil, false
+				}
+				outs, err := in.Run(&ast.FuncType{Params: &ast.FieldList{}, Results: fn.Decl.Type.Results}, nil, &ast.BlockStmt{List: cc.Body}, nil, "")
+				if err != nil || len(outs) == 0 || got == nil {
+					uni = false
+					continue
+				}
+				_ = gotState
+				if !isUnion {
+					if l, ok := got.(absint.List); ok && len(l.Elems) == 1 && l.Elems[0].Canon() == "TARGET-TYPEID" {
 						single = true
 					}
-				case *ast.ForStmt, *ast.RangeStmt:
-					s := core.ExprStr(x)
-					_ = s
-					ast.Inspect(x, func(k ast.Node) bool {
-						if as, isAs := k.(*ast.AssignStmt); isAs && len(as.Rhs) == 1 && strings.Contains(core.ExprStr(as.Rhs[0]), "TargetType.Union.Alternatives[") && strings.HasSuffix(core.ExprStr(as.Rhs[0]), ".TypeID") {
-							loop = true
-						}
-						return true
-					})
+					continue
 				}
-				return true
-			})
-			// the union test
-			uni := false
-			ast.Inspect(cc, func(m ast.Node) bool {
-				if is, isIf := m.(*ast.IfStmt); isIf {
-					if be, isBin := is.Cond.(*ast.BinaryExpr); isBin && (be.Op == token.NEQ || be.Op == token.EQL) && strings.HasSuffix(core.ExprStr(be.X), "TargetType.TypeID") && strings.HasSuffix(core.ExprStr(be.Y), "TypeIDUnion") {
-						uni = true
+				// union: a slice made with the alternatives' count, each position given that alternative's TypeID
+				for _, o := range outs {
+					madeLen, stored := "", ""
+					for _, e := range o.Events {
+						switch {
+						case e.Name == "make" && len(e.Args) >= 2 && fmt.Sprintf("make@%d", e.Pos) == got.Canon():
+							madeLen = e.Args[1].Canon()
+						case strings.HasPrefix(e.Name, "store "+got.Canon()+"[") && len(e.Args) == 1:
+							stored = e.Args[0].Canon()
+						case strings.HasPrefix(e.Name, "append") && len(e.Args) >= 1:
+							stored = e.Args[len(e.Args)-1].Canon()
+						}
+					}
+					okLen := strings.HasPrefix(madeLen, "len(") && strings.HasSuffix(madeLen, "TargetType.Union.Alternatives)") || madeLen == "" && strings.HasPrefix(got.Canon(), "append(")
+					if okLen && strings.Contains(stored, "TargetType.Union.Alternatives[") && strings.HasSuffix(stored, ".TypeID") {
+						loop = true
 					}
 				}
-				return true
-			})
+			}
 			ok = single && loop && uni
 			_ = info
 			return false
